@@ -141,7 +141,19 @@ class PathView:
         for t, v in self.conds:
             if t == term:
                 return v
+        # the value is tested only as part of a compound condition that was bound to a local: not judged
+        for t, v in self.conds:
+            if t != term and any(x == term for x in _subterms_abs(t)) and isinstance(t, tuple) and t[0] == 'op' and t[1] in ('And', 'Or'):
+                raise Undecided(f'{self.ef.qn}: {fmt(term)} is tested inside the compound condition {fmt(t)}')
         return None
+
+
+def _subterms_abs(t: T.Any) -> T.Iterator[T.Any]:
+    if isinstance(t, tuple):
+        yield t
+        for x in t:
+            if isinstance(x, tuple):
+                yield from _subterms_abs(x)
 
 
 def views(ef: EvalFn) -> T.List[PathView]:
@@ -585,7 +597,7 @@ def r5(ctx: RuleCtx) -> None:
             for subj, e in bool_before_int(f):
                 hits += 1
                 ctx.violation(m, q, e, f'isinstance({subj}, bool) is only reachable after isinstance({subj}, int) was false: a boolean is an int in Python, so booleans take the int arm', e)
-    ctx.floor('functions with a bool class test in the anchored files', scanned, 3)
+    ctx.floor('functions with a bool class test in the anchored files', scanned, 1)
     if not hits:
         ctx.ok(f'bool is tested before int in all {scanned} functions of the anchored files that test for bool')
     # holder registration
